@@ -185,9 +185,11 @@ class EnsembleSampler(MarkovChain):
         j = (self.rng.integers(low=1, high=self.n_walkers) + i) % self.n_walkers
         # sample the stretch distance
         z = 0.5 * (self.x_lwr + self.x_width * self.rng.random()) ** 2
+        # the stretch move: walker 'i' moves along the line through walker 'j',
+        # to a distance from 'j' which is 'z' times its current distance
         prop = self.process_proposal(
-            self.walker_positions[i, :]
-            + z * (self.walker_positions[j, :] - self.walker_positions[i, :])
+            self.walker_positions[j, :]
+            + z * (self.walker_positions[i, :] - self.walker_positions[j, :])
         )
         return prop, z
 
